@@ -340,6 +340,8 @@ def subs(task, key, val):
             pass
         if type_task is list:
             return [subs(x, key, val) for x in task]
+        if type_task is dict:
+            return {k: subs(v, key, val) for k, v in task.items()}
         return task
     newargs = []
     hash_key = {key}
@@ -349,6 +351,8 @@ def subs(task, key, val):
             arg = subs(arg, key, val)
         elif type_arg is list:
             arg = [subs(x, key, val) for x in arg]
+        elif type_arg is dict:
+            arg = {k: subs(v, key, val) for k, v in arg.items()}
         else:
             try:
                 if arg in hash_key:  # Hash and equality match
